@@ -28,6 +28,13 @@ CLAIMED["C04"] = ("regex patterns + replacer closure + get_quote_to_use read fro
     "bounded symbolic model checking: for every literal body of <=4 (thorough 6) characters over the escape alphabet, both input quotes, all 4 quote styles: decode(out)=decode(in), the output is lexically valid, forced quotes are honoured, the replacer's panics are unreachable; number arm: only 0-insertion before a leading dot",
     "trusts rustc's MIR printer, mirsym, the regex front end (leftmost-first semantics), the decoder oracle, z3; longer literals are outside", "5/C04")
 
+CLAIMED["C08"] = ("mirsym over should_format_node / check_toggle_formatting / format_block (one loop step + tail) / format_stmt / format_last_stmt / format_eof with symbolic comment lines, flags and FormatNode outcomes; z3 obligations; directive battery replay",
+    "bounded symbolic model checking: Skip iff disabled or an exact `stylua: ignore` line among <=2x2 comment lines; toggle = fold over <=3 lines; a statement that is not Normal leaves format_block as returned by format_stmt with its own semicolon (any loop state, so any block length); Skip returns the node itself",
+    "trusts rustc's MIR printer, mirsym and its iterator/trivia summaries, z3; full_moon's lossless to_owned/to_string; the statement text itself is not modelled", "5/C08-C09")
+CLAIMED["C09"] = ("same encoding as C08 (vcheck/ignoremodel.py): range test of should_format_node over 64-bit positions and optional bounds, format_block step, NotInRange arms; range battery replay",
+    "bounded symbolic model checking: NotInRange iff node_start < range.start or node_end > range.end for present bounds (Skip first); out-of-range statements are pushed untouched with their semicolon; NotInRange only reaches the block-only visitors",
+    "trusts rustc's MIR printer, mirsym, z3; positions are full_moon byte offsets; 'inside the range = whole-file result' is outside", "5/C08-C09")
+
 NOT_YET = {}
 
 NA = {
